@@ -190,7 +190,9 @@ class Check(PropertyCheck):
                 d = G.gen_compound(rng, 1, lambda: dyadic_region(rng, rng.choice(G.SIMPLE_KINDS)))
             k = rng.choice([1, 7, 100, 10 ** 4])
             cases.append({'kind': 'shift', 'region': d, 'kx': rng.randint(-k, k), 'ky': rng.randint(-k, k),
-                          'subpixels': rng.choice([1, 2, 2, 3, 4, 4, 5, 6, 8])})
+                          'subpixels': rng.choice([1, 2, 2, 3, 4, 4, 5, 6, 8]),
+                          # the translated region is a NEW object, or the same object moved in place after it was used
+                          'inplace': rng.random() < 0.5})
         return cases
 
     # ------------------------------------------------------------------ real
@@ -230,7 +232,12 @@ class Check(PropertyCheck):
             return out
         # shift
         d2 = shift_desc(d, case['kx'], case['ky'])
-        reg2 = G.build(d2)
+        if case.get('inplace') and d['kind'] in G.HISTORY_KINDS and 'origin' not in d:
+            reg2 = G.build(d)
+            G.warm(reg2)
+            reg2 = G.reassign(reg2, d2, prev=d)
+        else:
+            reg2 = G.build(d2)
         b1, b2 = reg.bounding_box, reg2.bounding_box
         out = {'box': [b1.ixmin, b1.ixmax, b1.iymin, b1.iymax], 'box2': [b2.ixmin, b2.ixmax, b2.iymin, b2.iymax], 'masks': {}}
         if (b1.ixmax - b1.ixmin) * (b1.iymax - b1.iymin) <= 40000:
